@@ -1,7 +1,7 @@
 (* Correspondence for C02: Plan.Vars.variables_list / forwarded vs planner.getVariablesList (verif export) and the
    variables that actually accompanied the step's sub-request. *)
 From Coq Require Import List String Bool Arith.
-From Pebbles Require Import Base.Json Plan.Vars Corr.C07.
+From Pebbles Require Import Base.Json Plan.Vars Plan.Header Corr.C07.
 Import ListNotations.
 Open Scope string_scope.
 Open Scope list_scope.
@@ -10,7 +10,10 @@ Record c2case := mkCase {
   cSels : list sel;                          (* the step's selection set *)
   cObsList : list string;                    (* getVariablesList(step.SelectionSet) *)
   cClientVars : list (string * json);        (* the client's variables *)
-  cObsForwarded : option (list (string * json)) (* variables of one logged sub-request of this step, `id` removed *)
+  cObsForwarded : option (list (string * json)); (* variables of one logged sub-request of this step, `id` removed *)
+  cTypes : Header.types;                     (* the merged schema's types the annotated values refer to *)
+  cTSels : list tsel;                        (* the same selection set with the validator's annotations *)
+  cObsHeader : list (string * string)        (* variable definitions of the step's QueryString: name, printed type *)
 }.
 
 Fixpoint strs_eqb (a b : list string) : bool :=
@@ -19,7 +22,14 @@ Fixpoint strs_eqb (a b : list string) : bool :=
 Fixpoint dedup (l : list string) (seen : list string) : list string :=
   match l with [] => [] | x :: t => if existsb (String.eqb x) seen then dedup t seen else x :: dedup t (x :: seen) end.
 
+(* the header the formatter wrote = the model's header map, on a selection set that meets the validator's invariants *)
+Definition header_agrees (c : c2case) : bool :=
+  wt (cTypes c) (cTSels c) &&
+  forallb (fun nt => match header_declares (cTypes c) (cTSels c) (fst nt) with Some t => t =? snd nt | None => false end) (cObsHeader c) &&
+  forallb (fun nt => existsb (fun o => fst o =? fst nt) (cObsHeader c)) (walk (cTypes c) (cTSels c)).
+
 Definition agrees (c : c2case) : bool :=
+  header_agrees c &&
   strs_eqb (variables_list (cSels c)) (cObsList c) &&
   match cObsForwarded c with
   | None => true
